@@ -55,11 +55,42 @@ def showSel : SelM → String
   | .key s k => s!"K{s}.{k}"
   | .data s d => s!"D{s}.{d}"
 
-def showTarget : TargetM → String
-  | .simple s => showSel s
+/-- a member that refers to the whole text of the annotation it points at -/
+def wholeMember (s : State) : SelM → Bool
+  | .annoff a r t _ =>
+    match (getLive s.anns a).bind AnnM.textsel with
+    | some (pr, pt) => pr == r && s.selRange pr pt == s.selRange r t
+    | none => false
+  | _ => false
+
+/-- `AnnotationStore::subselectors` stores runs of annotation selectors on consecutive annotations, each referring to
+the whole text of its annotation, as one internal ranged selector; the members it yields afterwards report their
+offset in the default mode (begin-aligned both): the mode they were given is not kept. Rendering only: the store
+model keeps the members as they were built. `prev` = (annotation handle of the previous member, was it whole, is a run
+open). -/
+def reportedModes (s : State) : Option (Nat × Bool × Bool) → List SelM → List SelM
+  | _, [] => []
+  | prev, x :: rest =>
+    match x with
+    | .annoff a r t m =>
+      let w := wholeMember s x
+      let joins : Bool := match prev with
+        | some (pa, pw, _) => a == pa + 1 && pw && w
+        | none => false
+      -- does the next member join this one (then this one starts a run and loses its mode as well)
+      let startsRun : Bool := match rest with
+        | (.annoff a2 _ _ _) :: _ => a2 == a + 1 && w && wholeMember s (rest.headD x) && !joins
+        | _ => false
+      let m' := if joins || startsRun then OffsetMode.bb else m
+      -- after a failed join a member can start a new run; inside a run only whole members continue it
+      .annoff a r t m' :: reportedModes s (some (a, w, joins || startsRun)) rest
+    | other => other :: reportedModes s none rest
+
+def showTarget (s : State) : TargetM → String
+  | .simple x => showSel x
   | .complex k l =>
     let c := match k with | .multi => "M" | .comp => "C" | .dir => "X"
-    c ++ "[" ++ ";".intercalate (l.map showSel) ++ "]"
+    c ++ "[" ++ ";".intercalate ((reportedModes s none l).map showSel) ++ "]"
 
 def joinOr (sep : String) (l : List String) : String := if l.isEmpty then "-" else sep.intercalate l
 
@@ -78,7 +109,7 @@ def observe (s : State) : String :=
         | _ => none)
       let idS := a.id.getD "~"
       let dataS := joinOr "," (a.data.map (fun p => s!"{p.1}.{p.2}"))
-      s!"A{h}[{idS}]({showTarget a.target})(d={dataS})(t={joinOr "," sels})(by={hl (s.lookup (.ann h))})(in={hl intg})")
+      s!"A{h}[{idS}]({showTarget s a.target})(d={dataS})(t={joinOr "," sels})(by={hl (s.lookup (.ann h))})(in={hl intg})")
   let ress := (List.range s.res.length).map (fun h =>
     match getLive s.res h with
     | none => s!"R{h}x"
